@@ -78,6 +78,14 @@ Proof.
   - split; reflexivity.
 Qed.
 
+(* the binary operators with a Duration on a zone-aware value (ar.zaddstd) *)
+Lemma ops_zstd_agree a s n :
+  match from_std s n with
+  | Some d => op_zadd_std a s n = op_zadd_td a d /\ op_zsub_std a s n = op_zsub_td a d
+  | None => op_zadd_std a s n = Panic /\ op_zsub_std a s n = Panic
+  end.
+Proof. unfold op_zadd_std, op_zsub_std. destruct (from_std s n); split; reflexivity. Qed.
+
 (** value level for a Duration of [s] seconds and [n] nanoseconds: the instant moves by exactly
     [s*10^9 + n] ns; panic exactly when the Duration does not fit a TimeDelta or the target instant
     is not representable *)
